@@ -53,6 +53,8 @@ def run(ctx):
     rule_cls(ctx, F)
     rule_cfg(ctx, F)
     rule_replay(ctx, F)
+    rule_ownkey(ctx, F)
+    rule_gate(ctx, F)
 
 
 def rule_exp(ctx, F):
@@ -217,7 +219,7 @@ RCODE_NAMES = {0: "NOERROR", 3: "NXDOMAIN"}
 
 def rule_cap(ctx, F):
     R = "C20.cap"
-    ctx.floor(R, 9)
+    ctx.floor(R, 10)
     b = F.one_body(r"^net::client::cache::validity$")
     if not ctx.anchor(R, "validity", b):
         return
@@ -276,6 +278,22 @@ def rule_cap(ctx, F):
             if any(tt[0] == "call" and (tt[1] or "").endswith("Header::tc") and vv is True for tt, vv in fs) and \
                     any(tt == ("field", ("arg", 2), "cache_truncated") and vv is False for tt, vv in fs):
                 zero_tc = True
+    # once the rcode cap is applied, the only way out with a validity is past the scan of all three sections
+    secs = [bb for bb, t in b.calls() if re.search(r"(QuestionSection::<.*>::answer|RecordSection::<.*>::next_section)$", t["fn"] or "")]
+    startbb = None
+    for bi in b.reachable_blocks():
+        for st in b.blocks[bi]["s"]:
+            if st[0] == "=" and len(st[1]) == 1 and deep_strip(b.term_of_rvalue(st[2])) == ("field", ("arg", 2), "max_validity"):
+                startbb = bi
+    if ctx.anchor(R, "validity(): three section steps and the start value", len(secs) == 3 and startbb is not None, b.where()):
+        for rb, si, kind, term in return_assignments(b):
+            if kind != "Ok" or not b.dominates(startbb, rb):
+                continue
+            ok = all(b.dominates(sb, rb) for sb in secs)
+            ctx.ob(R, b, "a validity is answered only after the TTLs of all three sections were folded in", ok,
+                   "validity() returns Ok at a point that %d of the 3 section scans do not dominate: the response is cached for the "
+                   "configured cap even when it holds a record with a smaller TTL, and that record is served after it expired"
+                   % sum(1 for sb in secs if not b.dominates(sb, rb)), b.where(rb))
     ctx.ob(R, b, "transport failures use transport_failure_duration", tf, "an Err response must be cached for transport_failure_duration")
     ctx.ob(R, b, "a cached transport failure is bounded by max_validity as well", tf and tf_capped,
            "validity() answers config.transport_failure_duration for a failed request without folding it with "
@@ -597,3 +615,70 @@ def rule_cfg(ctx, F):
             ctx.ob(R, b, "%s() reads `%s`" % (name, name), name in reads,
                    "Config::%s returns field(s) %s" % (name, sorted(reads)), b.where())
     ctx.call_sites += n
+
+
+def rule_ownkey(ctx, F):
+    """What a lookup derives for the *requested* flag combination (the AD bit cleared, DNSSEC records stripped) is stored
+    under the requested key.  The alternative key -- a copy of the requested one with a flag changed, under which the
+    source entry was found -- is never written: storing the derived copy there replaces the upstream's answer for the
+    other flag combination (an AD=1 query would get an answer without AD)."""
+    R = "C20.ownkey"
+    ctx.floor(R, 2)
+    n = 0
+    for p, b in sorted(F.bodies.items()):
+        if not re.match(r"^net::client::cache::Request::<CR, Upstream>::cache_lookup\w*::\{closure#0\}$", p):
+            continue
+        b.defs()
+        for bb, t in b.calls():
+            if not re.search(r"cache::Request::<.*>::cache_insert$", t["fn"] or "") or len(t["args"]) < 2:
+                continue
+            n += 1
+            op = t["args"][1]
+            locs = set()
+            cur = op[1][0] if op[0] in ("c", "m") else None
+            for _ in range(4):
+                if cur is None or cur in locs:
+                    break
+                locs.add(cur)
+                nxt = None
+                for d in b.defs().get(cur, []):
+                    if d[0] == "stmt" and d[3][0] == "use" and d[3][1][0] in ("c", "m") and len(d[3][1][1]) == 1:
+                        nxt = d[3][1][1][0]
+                cur = nxt
+            altered = [l for l in locs if b.partial_defs.get(l)]
+            tm = deep_strip(b.term_of_operand(op))
+            from_param = any(x[0] == "field" and deep_strip(x[1]) == ("arg", 1) or x == ("arg", 1) for x in walk(tm)) or "arg1" in show(tm)
+            ctx.ob(R, b, "a derived entry is stored under the requested key #%d" % n, not altered and from_param,
+                   "%s stores the derived entry under %s: the key the source entry was found under is overwritten with a copy made for "
+                   "another flag combination, and the next query with those flags gets the stripped copy instead of what the upstream "
+                   "said" % (p.split("::")[-2], "a key whose flags were changed after it was cloned" if altered else show(tm)[:80]), b.where(bb))
+    ctx.call_sites += n
+
+
+def rule_gate(ctx, F):
+    """Only a QUERY for class IN goes through the cache: where the request path builds its key, the request's opcode was
+    found equal to QUERY *and* the question's class equal to IN.  (With an `or` -- or the two tests negated separately --
+    an UPDATE or NOTIFY for class IN, or a CH query, is answered from, and stored in, a cache keyed without opcode.)"""
+    R = "C20.gate"
+    ctx.floor(R, 2)
+    n = 0
+    for b, bb, tt in F.callers_of(r"^net::client::cache::Key::new$"):
+        if "::test" in b.path or "get_response_impl" not in b.path:
+            continue
+        n += 1
+        op = cl = False
+        for t, v in bool_facts(b, bb, F):
+            if v is not True or t[0] != "call" or not re.search(r"PartialEq(<.*>)?(>)?::eq$", t[1] or "") or len(t[3]) != 2:
+                continue
+            ks = [x for x in walk(t[3][1]) if x[0] == "k"] + [x for x in walk(t[3][0]) if x[0] == "k"]
+            sh = show(t)
+            if "opcode(" in sh and any((k[3] or "").endswith("Opcode::QUERY") for k in ks):
+                op = True
+            if "qclass(" in sh and any((k[3] or "").endswith("Class::IN") for k in ks):
+                cl = True
+        ctx.ob(R, b, "the cache is consulted only for opcode QUERY", op,
+               "get_response_impl builds a cache key on a path where the request's opcode was not found equal to Opcode::QUERY: "
+               "the key does not hold the opcode, so a NOTIFY or UPDATE is answered with the cached answer of a query", b.where(bb))
+        ctx.ob(R, b, "the cache is consulted only for class IN", cl,
+               "get_response_impl builds a cache key on a path where the question's class was not found equal to Class::IN", b.where(bb))
+    ctx.anchor(R, "Key::new in get_response_impl", n >= 1, "")
